@@ -27,8 +27,17 @@ TD = [
     ("Literal['np', 'tf']", [ABSENT, "np"]),
     ("np.ndarray", [ABSENT, "```np.empty(0)```"]),
 ]
-COMBOS = [(t, d) for t, ds in TD for d in ds]
-PROSE = [None, "the {n}", "the {n}.", "the {n}, in (units)"]
+# added later (kept out of the two-parameter product g2 to bound its size): nested generics with str defaults that are not
+# identifiers, an empty-string choice, Optional of a dotted name
+TD_MORE = [
+    ("Optional[Literal['utf-8', 'ascii']]", [NoneStr, "utf-8"]),
+    ("Optional[Union[str, int]]", [NoneStr, "1", "x.y", "no data"]),
+    ("Literal['', '.bak']", [ABSENT, ".bak", ""]),
+    ("Optional[np.ndarray]", [ABSENT, NoneStr]),
+]
+COMBOS_CORE = [(t, d) for t, ds in TD for d in ds]
+COMBOS = COMBOS_CORE + [(t, d) for t, ds in TD_MORE for d in ds]
+PROSE = [None, "the {n}", "the {n}.", "the {n}, in (units)", "Optional {n} value", "optional cap on the {n}"]
 RETS = [
     None,
     ("int", "the result", ABSENT),
@@ -54,8 +63,8 @@ def rows():
             out["g1_%d_%d" % (i, j)] = ("Summary line", [_p("a", td, j)], None)
     # 2. two parameters: every ordered pair of (type, default) combinations; prose forms rotate so that every pair of prose forms occurs
     n = 0
-    for i, ta in enumerate(COMBOS):
-        for j, tb in enumerate(COMBOS):
+    for i, ta in enumerate(COMBOS_CORE):
+        for j, tb in enumerate(COMBOS_CORE):
             out["g2_%d_%d" % (i, j)] = ("Summary line", [_p("a", ta, 1 + n % 3 if (n // 3) % 4 else 0), _p("b", tb, (n // 3) % 4)], None)
             n += 1
     # 3. parameter x return entry x kwargs
@@ -80,6 +89,12 @@ def rows():
                 if extra:
                     ps.append(("d", "float", None if pm & 1 else "the d", ABSENT if dm & 2 else 0.5))
                 out["g5_%d_%d_%d" % (pm, dm, extra)] = ("Summary line", ps, None)
+    # 6. parameter names that contain one another (suffix / prefix), adjacent, in both orders
+    for k, (n1, n2) in enumerate((("size", "batch_size"), ("batch_size", "size"), ("x", "max_x"), ("arg", "my_arg"), ("path", "path_prefix"),
+                                  ("a", "aa"))):
+        for v, ((t1, d1), (t2, d2)) in enumerate(((("int", 5), ("int", ABSENT)), (("str", ABSENT), ("int", 3)), (("int", ABSENT), ("str", ABSENT)))):
+            out["g6_%d_%d" % (k, v)] = ("Summary line", [("p", "str", "the p", ABSENT), (n1, t1, "the %s" % n1, d1), (n2, t2, "the %s" % n2, d2),
+                                                         ("q", "bool", "the q", True)], None)
     return out
 
 
@@ -91,7 +106,7 @@ def select(tier, salt=0):
     """quick: all one-parameter rows, a third of the rest (deterministic stride); thorough: everything"""
     if tier != "quick":
         return IDS
-    return [r for n, r in enumerate(IDS) if r.startswith(("g1_", "g4_")) or (n + salt) % 5 == 0 or (r.startswith("g5_") and (n + salt) % 2 == 0)]
+    return [r for n, r in enumerate(IDS) if r.startswith(("g1_", "g4_")) or (n + salt) % 5 == 0 or (r.startswith("g5_") and (n + salt) % 2 == 0) or r.startswith("g6_")]
 
 
 ARGPARSE_TYPES = ("int", "str", "bool", "float", "Optional[int]", "Optional[str]", "Optional[bool]", "List[str]", "Literal['np', 'tf']", "Optional[dict]")
